@@ -112,7 +112,11 @@ class Simulator:
             for i in range(len(self.propagatables)):
                 leaf = self.propagatables[i]
                 pos = self.findFirstDependentPosition(leaf)
-                
+
+                if (pos == i):
+                    # the leaf depends on its own output
+                    raise Exception('Combinational loop in {}'.format(leaf.getFullPath()))
+
                 if (pos >= 0 and pos < i):
                     # exchange position, put dependent last
                     first = self.propagatables[pos]
